@@ -261,6 +261,55 @@ def _ratio_new_uint(it, st, args, ctx):
     return _panic_fork(it, st, args[1] != 0, Opaque('RatioU', (n, d, args[0].size(), args[0], args[1])), 'Ratio: denominator == 0', ctx)
 
 
+@summary(r'^(num::rational::)?Ratio::<(u128|u64)>::from_integer$')
+def _ratio_uint_from_integer(it, st, args, ctx):
+    v = args[0]
+    one = z3.BitVecVal(1, v.size())
+    return Opaque('RatioU', (z3.BV2Int(v, False), z3.IntVal(1), v.size(), v, one))
+
+
+@summary(r'^<(num::rational::)?Ratio<(u128|u64)> as (num::traits::|num_traits::)?(CheckedMul)>::checked_mul$|^(num::rational::)?Ratio::<(u128|u64)>::checked_mul$')
+def _ratio_uint_checked_mul(it, st, args, ctx):
+    """machine-integer rationals: the product, or None when an intermediate (cross-reduced) product does not fit.  The cross
+    reduction by gcds is not modelled: when the UNREDUCED products fit the result is Some(exact product); otherwise both
+    Some(exact product) and None are explored (a counterexample that needs None only counts once the native replay confirms it)"""
+    a, b = deref(it, st, args[0]), deref(it, st, args[1])
+    bits = a.data[2]
+    an, ad, bn, bd = a.data[3], a.data[4], b.data[3], b.data[4]
+    wn = z3.ZeroExt(bits, an) * z3.ZeroExt(bits, bn)
+    wd = z3.ZeroExt(bits, ad) * z3.ZeroExt(bits, bd)
+    fits = simp(z3.And(z3.Extract(2 * bits - 1, bits, wn) == 0, z3.Extract(2 * bits - 1, bits, wd) == 0))
+    outs = []
+    if not z3.is_false(fits) and it.feasible(st, fits):
+        s2 = st.fork()
+        s2.assume(fits)
+        pn, pd = z3.Extract(bits - 1, 0, wn), z3.Extract(bits - 1, 0, wd)
+        outs.append((s2, Ret(mk_some(Opaque('RatioU', (z3.BV2Int(pn, False), z3.BV2Int(pd, False), bits, pn, pd))))))
+    if not z3.is_true(fits) and it.feasible(st, z3.Not(fits)):
+        s3 = st.fork()
+        s3.assume(z3.Not(fits))
+        outs.append((s3, Ret(mk_none())))
+        # the reduced products may still fit: the exact quotient then (numerator / denominator as exact integers)
+        s4 = st
+        s4.assume(z3.Not(fits))
+        qn = fresh('ratio_prod_n', z3.BitVecSort(bits))
+        qd = fresh('ratio_prod_d', z3.BitVecSort(bits))
+        s4.assume(z3.And(z3.BV2Int(qn, False) * a.data[1] * b.data[1] == z3.BV2Int(qd, False) * a.data[0] * b.data[0], qd != 0))
+        outs.append((s4, Ret(mk_some(Opaque('RatioU', (z3.BV2Int(qn, False), z3.BV2Int(qd, False), bits, qn, qd))))))
+    return outs
+
+
+@summary(r'^(num::rational::)?Ratio::<(u128|u64)>::(to_integer|floor)$')
+def _ratio_uint_to_integer(it, st, args, ctx):
+    r = deref(it, st, args[0])
+    n, d, bits = r.data[3], r.data[4], r.data[2]
+    q = z3.UDiv(n, d)
+    if ctx.callee.endswith('floor'):
+        one = z3.BitVecVal(1, bits)
+        return Opaque('RatioU', (z3.BV2Int(q, False), z3.IntVal(1), bits, q, one))
+    return q
+
+
 @summary(r'^(num::rational::)?Ratio::<(u128|u64)>::(numer|denom)$')
 def _ratio_uint_parts(it, st, args, ctx):
     r = deref(it, st, args[0])
